@@ -129,11 +129,13 @@ func (m *CPU) Run(app risc.Application) (int, error) {
 			if resp.err != nil {
 				return 0, resp.err
 			}
-			if resp.flush {
+			if resp.flush && (!flush || resp.sequenceID < sequenceID) {
+				// Several units can request a flush in the same cycle: the oldest
+				// instruction decides from where and to where
 				sequenceID = resp.sequenceID
+				pc = resp.pc
 			}
 			flush = flush || resp.flush
-			pc = max(pc, resp.pc)
 			ret = ret || resp.isReturn
 		}
 
